@@ -113,8 +113,21 @@ func (s *S) viol(sig, format string, args ...any) {
 // run executes one public call under store accounting.
 func (s *S) run(name string, read bool, f func() error) (string, error) {
 	s.h.BeginOp(false)
+	if s.h.MS != nil {
+		// call budget: a deterministic replacement for a time-out (e.g. an index-driven update chasing its own writes)
+		docs := 0
+		for _, mc := range s.m.Colls {
+			docs += len(mc.Docs)
+		}
+		s.h.MS.SetBudget(20000 + 600*docs)
+	}
 	err := Do(f)
 	st := s.h.EndOp()
+	if st != nil && st.Runaway {
+		s.c.Log("%s -> RUNAWAY after %d store calls", name, st.Calls)
+		s.viol("runaway:"+opName(name), "%s made more than %d store calls on a database of that size (runaway operation); the monitor started failing its calls to stop it", name, st.Calls)
+		return EOther, err
+	}
 	s.lastSt = st
 	s.ops++
 	got := Classify(err)
